@@ -5,6 +5,7 @@ pub mod c02;
 pub mod c03;
 pub mod c04;
 pub mod c06;
+pub mod c07;
 pub mod c13;
 pub mod c14;
 
@@ -14,7 +15,7 @@ pub fn c13_generic(path: &str) -> String {
 	p.split('.').filter(|c| !(c.len() == 2 && c.starts_with('P'))).map(|c| if c.starts_with("item[") { "item[k]" } else { c }).collect::<Vec<_>>().join(".")
 }
 
-pub const IDS: &[&str] = &["C01", "C02", "C03", "C04", "C06", "C13", "C14"];
+pub const IDS: &[&str] = &["C01", "C02", "C03", "C04", "C06", "C07", "C13", "C14"];
 
 pub fn get(id: &str) -> Option<Box<dyn Monitor>> {
 	Some(match id {
@@ -23,6 +24,7 @@ pub fn get(id: &str) -> Option<Box<dyn Monitor>> {
 		"C03" => Box::new(c03::C03::new()),
 		"C04" => Box::new(c04::C04::new()),
 		"C06" => Box::new(c06::C06::new()),
+		"C07" => Box::new(c07::C07::new()),
 		"C13" => Box::new(c13::C13::new()),
 		"C14" => Box::new(c14::C14::new()),
 		_ => return None,
